@@ -200,8 +200,20 @@ fn run_one(input: &Value) -> Value {
     // adm = false: the specification says the constructors do not admit the
     // record (a field value outside Admitted(kind, v)): nothing to round-trip
     let not_admitted = input.get("adm") == Some(&json!(false));
-    let na = || json!({"lib": "na", "spec": "na", "tok": "na", "tokm": "na", "lbl": "na", "cs": "na"});
-    let rec = match zf::record_via(&mk, &mkd, &owner, class, ttl, rtype, &rdata) {
+    // raw: a text the specification's reader refuses (a name beyond the length
+    // limit): what the library's reader makes of it, and whether any route
+    // builds the record at all
+    let raw = input.get("raw").map(|t| zf::read_all(&bytes_of(t), &zf::ReadOpts { origin, default_class: None, allow_invalid: false }));
+    let built = zf::record_via(&mk, &mkd, &owner, class, ttl, rtype, &rdata);
+    let na = || {
+        let mut v = json!({"lib": "na", "spec": "na", "tok": "na", "tokm": "na", "lbl": "na", "cs": "na"});
+        if let Some(r) = &raw {
+            v["raw"] = r.clone();
+            v["built"] = json!(built.is_ok() || zf::record_from_wire(&owner, class, ttl, rtype, &rdata).is_ok());
+        }
+        v
+    };
+    let rec = match built.clone() {
         Ok(r) => r,
         Err(_) if not_admitted => return na(),
         Err(e) => return json!({"bad_wire": e}),
@@ -226,6 +238,10 @@ fn run_one(input: &Value) -> Value {
     if let Some(st) = input.get("stext") {
         obs["spec"] = zf::read_back(&rec, &bytes_of(st), origin);
     }
+    if let Some(rt) = input.get("rel") {
+        // an equivalent spelling of the specification: names relative to the origin
+        obs["rel"] = if zf::read_back(&rec, &bytes_of(rt), origin) == json!("eq") { json!("eq") } else { json!("neq") };
+    }
     if input.get("type_case").is_some() {
         obs["tok"] = tok_words_obs(&rec, rtype);
     }
@@ -239,10 +255,14 @@ fn run_one(input: &Value) -> Value {
     if let Some(c) = input.get("ctexts") {
         obs["cs"] = cs_obs(c);
     }
-    if not_admitted && ["lib", "spec", "tok", "tokm", "lbl", "cs"].iter().all(|k| obs[*k] == json!("eq")) {
+    if not_admitted && raw.is_none() && ["lib", "spec", "tok", "tokm", "lbl", "cs"].iter().all(|k| obs[*k] == json!("eq")) {
         // the library admits more than the specification's Admitted: the law
         // holds for the record all the same, nothing to report
         return na();
+    }
+    if let Some(r) = &raw {
+        obs["raw"] = r.clone();
+        obs["built"] = json!(true);
     }
     obs
 }
